@@ -308,6 +308,26 @@ func c08TopItems(thorough bool) []cItem {
 	for _, s := range []string{"* b", "* > b", ".a/*c*/.b", ".a/*c*/ /*d*/.b", "b/**/c", "& /**/> b", "b [c]", "b[c] [d]", "b[ c ]", "b , c", "b ,c", "b, c", "b + c", "b ~ c", "b >c", "b> c"} {
 		items = append(items, ruleset("x", ruleset(s, dl[1])), ruleset(s, dl[1]))
 	}
+	// names are reported in lower case, whichever single letter is written in upper case
+	for L := byte('A'); L <= 'Z'; L++ {
+		u, l := string([]byte{L}), string([]byte{L + 32})
+		items = append(items,
+			ruleset("a", gCat(declItem(declSpec{"b" + u + "c", "d"}, ";"), declItem(declSpec{u + "oom", "1"}, ";"), declItem(declSpec{"-mo" + u + "-x", "y"}, ""))),
+			atStatement("@x"+u+"y", "z"), atUnknown("@-mo"+u+"-viewport", "a"))
+		_ = l
+	}
+	for _, n := range []string{"media", "supports", "font-face", "-moz-document", "keyframes"} {
+		for i := range n {
+			if n[i] >= 'a' && n[i] <= 'z' {
+				name := "@" + n[:i] + strings.ToUpper(n[i:i+1]) + n[i+1:]
+				if n == "font-face" {
+					items = append(items, atBlock(name, "", dl[1]))
+				} else {
+					items = append(items, atBlock(name, "x", ruleset("a", dl[1])))
+				}
+			}
+		}
+	}
 	// at-rules
 	for i, p := range c08Preludes {
 		rules := gCat(ruleset("a", dl[1]), ruleset("b c", dl[(i+4)%len(dl)]))
